@@ -75,7 +75,8 @@ def main():
             ties_broken.append('coqchk:Properties/%s.vo rejected by the independent checker' % pid)
     # 4. harness
     cfgs = spec['cfgs'][tier]
-    hres = engine.build_harness(cfgs)
+    side = [c for c in spec.get('side_cfgs', []) if c not in cfgs]        # configurations used by small side families only
+    hres = engine.build_harness(cfgs + side)
     harness_ok = True
     for c, (okc, out) in hres.items():
         if not okc:
@@ -90,6 +91,7 @@ def main():
 
     # 5./6. correspondence + decision
     ctx = checks.Ctx(pid, tier, seed, cfgs, model_ok)
+    ctx.side_cfgs = side
     if a.replay:
         return checks.replay(ctx, spec, a.replay)
     try:
